@@ -443,7 +443,11 @@ class QvmCpu:
         self.last_trap = code
         self.last_trap_kwargs = kwargs
 
-        if not self.error_handler_active and \
+        # A keyboard interrupt is not an error of the program: it is
+        # never handed to an ON ERROR handler (there is no failing
+        # statement to resume), it always stops the machine.
+        if code != TrapCode.KEYBOARD_INTERRUPT and \
+           not self.error_handler_active and \
            self.trap_target is not None:
             # the failed statement is abandoned: drop the operands it
             # has pushed so far, so that the handler and the code we
